@@ -407,6 +407,8 @@ def unwrap(n):
         k = n['k']
         if k in ('cast', 'defarg', 'definit'):
             n = n['e']
+        elif k == 'inl' and 'e' in n:
+            n = n['e']          # an inlined helper call (inline.py) denotes the expression it returns
         elif k == 'call' and n.get('conv'):
             n = n['obj']
         elif k == 'ctor' and len(n.get('a', [])) == 1 and n.get('f', '').split('::')[-1] in ('',):
